@@ -25,7 +25,7 @@ CHECKS = {
   category="exploration",
   text="Seeded invocations of the real binary (dev profile: overflow checks on): the grid statistic(14) x shapes with 1..4 axes of length 1..4, view/fold option combinations on degenerate shapes, option values at and beyond their bounds, valid spectra and call sets with simulated storage corruption (bit flips, truncation, duplicated/deleted ranges, splices, numeric blow-ups), absurd declared shapes, 0..8-byte inputs, spectra steered to every npy header alignment boundary, contradictory sample lists and samples files; a quarter of the inputs arrive on shim-chunked stdin. Oracle: exit 0, or non-zero (not 101, no signal) with a diagnostic. Sampling; violations are keyed by panic site.",
   design_ref="DESIGN.md section 6 / C17",
-  note="Children run under 8 s CPU / 16 GiB limits that only protect the sandbox; hitting them is inconclusive, never a violation. --threads up to 64 only. Dev-profile binary.",
+  note="Children run under 30 s CPU / 16 GiB limits that only protect the sandbox; hitting them is inconclusive, never a violation. --threads up to 64 only. Dev-profile binary.",
   technique="deterministic simulation with fault injection at process level: seeded command lines x corrupted storage images x chunked delivery against the unmodified binary; crash-freedom oracle"),
 "C12": dict(
   category="exploration",
